@@ -880,9 +880,15 @@ def c17(tier):
     look = ["RsVx", "siVal", "P4", "R32", "RsW", "Rs", "sV", "RssVV", "xRsV", "HEX_REG_ALIAS", "HEX_REG_ALIAS_", "riv", "RIV",
             "R0x", "P0_NEWS", "NsNx", "EAx", "ii", "RsV_", "_RsV", "MuVV", "CsVx", "uiV2", "iV",
             "s1", "p0", "c00", "r3", "m0", "g1", "r1_0", "rsV", "hex_reg_alias_sp", "p3_new", "jump", "MEM_LOAD", "siv", "Rsv"]
+    # identifiers that START with a keyword or type name are plain identifiers (a keyword is a whole word)
+    look += ["returned", "intx", "unsignedx", "int32_tx", "uint8_ty", "constant", "autox", "staticv", "signedv", "voidx", "return_", "iffy", "forx",
+             "dowork", "elsewhere", "whilex", "sizeofx", "gotox", "breaker", "continued", "switcher", "caseb", "defaultx", "structx", "longer", "shorty",
+             "floaty", "doubled", "registered", "externx", "enumx", "unionx", "charx", "inlinex", "volatilex", "typedefx", "restricted", "size4u_tx",
+             "JUMPx", "mem_loadx", "cancel_slotx", "nopx", "ifx1", "do_it", "int_", "u"]
     for l in look:
         out.append(f"{{ int32_t {l} = RtV; RxV = {l} + 1; }}")
         out.append(f"{{ RxV = {l}; }}")
+        out.append(f"{{ int32_t {l} = RtV; {l} = {l} + 1; RxV = {l}; }}")       # the identifier at the START of a statement
     # register-shaped identifiers with two DIFFERENT access letters are plain identifiers (pairs repeat ONE letter)
     lets = "stuvdexy"
     for cls in "RPCMNV":
